@@ -23,6 +23,10 @@ FLAVOURS['g'] = ('* For THIS change: do NOT edit SimOps.__init__ or Heap in sim.
                  'edge (dtype width / overflow, negative numbers, zero, very large fan-out or bus width), aliasing of numpy arrays / views (a result that shares memory with an input or with '
                  'internal state), a mutable default argument or class-level attribute shared between instances, reliance on dict / set iteration order, string handling of names '
                  '(case, escapes, brackets, leading digits), or an early return / exception path that leaves an object half-updated.\n')
+FLAVOURS['h'] = ('* For THIS change: do NOT edit SimOps.__init__ or Heap in sim.py and not the _wave_eval kernel unless the property is anchored nowhere else.  Prefer one of: the boundary '
+                 'between two modules (a value produced by one anchored file and consumed by another: pin tables, name conventions, array layouts, index offsets), a loop that handles the '
+                 'FIRST or LAST element differently, a condition that is right for the common case of ONE item but wrong for zero or several (one clock, one scan chain, one output, one '
+                 'dataset, one CELL block), sorting / ordering / de-duplication of results, or a size computed by rounding (cdiv, multiples of 8 / 32, padding).\n')
 flavour = FLAVOURS.get(variant, '')
 print(f"""You are testing how good a (hidden) verification harness is. Your job: write ONE realistic, subtle change to the Python library
 s-holst/kyupy that BREAKS the semantic property below while the library still imports and its existing test suite still passes.
